@@ -97,8 +97,6 @@ PICKS = [
  ("deneb.ProcessEpochRegistryUpdates", "endChurn >= registerData.ChurnLimit", "ejections use get_validator_churn_limit(state) (the activation cap applies to activations only)"),
  ("phase0.ComputeRegistryProcessData", "flat.ActivationEligibilityEpoch <= currentEpoch", "activation queue candidates (is_eligible_for_activation is tested against finality later)"),
  ("phase0.ComputeRegistryProcessData", "flat.EffectiveBalance <= spec.EJECTION_BALANCE", "ejection: effective_balance <= EJECTION_BALANCE"),
- ("phase0.ProcessEpochRegistryUpdates", "uint64(len(dequeued)) > registerData.ChurnLimit", "activation_queue[:get_validator_churn_limit(state)]"),
- ("deneb.ProcessEpochRegistryUpdates", "uint64(len(dequeued)) > churnLimit", "activation_queue[:get_validator_activation_churn_limit(state)] (EIP-7514)"),
  ("phase0.ProcessEpochRegistryUpdates", "flats[index].ActivationEligibilityEpoch > finality.Epoch", "is_eligible_for_activation: eligibility_epoch <= finalized.epoch (stop at >)"),
  ("deneb.ProcessEpochRegistryUpdates", "flats[index].ActivationEligibilityEpoch > finality.Epoch", "is_eligible_for_activation: eligibility_epoch <= finalized.epoch (stop at >)"),
  # ---- epoch processing
